@@ -1440,6 +1440,13 @@ fn child_main(seed: u64, domain: Domain, lo: usize, hi: usize, file: &Path, n_se
                 Ok(map) => {
                     nobj = map.hit_objects.len();
                     mode = mode_name(crate::common::mode_idx(map.mode));
+                    // model lines of this map (accepted or not): `M <idx> <request> <observed>`
+                    #[cfg(feature = "p05m")]
+                    if !checked_profile() {
+                        for (req, obs) in crate::c05_models::susp_lines_of_map(&map) {
+                            let _ = writeln!(out, "M\t{idx}\t{req}\t{obs}");
+                        }
+                    }
                     let susp = rec.call("check_suspicion", || map.check_suspicion().is_ok());
                     stage = if susp != Some(true) {
                         "suspicious"
@@ -1824,6 +1831,15 @@ fn digest(run: &mut Run, seed: u64, domain: Domain, lines: &[String], label: &st
                 max_ms = max_ms.max(f[7].parse().unwrap_or(0));
                 max_call = max_call.max(f[8].parse().unwrap_or(0));
                 max_hwm = max_hwm.max(f[9].parse().unwrap_or(0));
+            }
+            Some("M") if f.len() >= 4 => {
+                let idx: usize = f[1].parse().unwrap_or(0);
+                let tag = f[2].split(' ').next().unwrap_or("?");
+                run.count(&format!("{label}model:{tag} lines from searched maps"));
+                if tag == "SUSP" {
+                    run.count(&format!("{label}model:SUSP searched verdict:{}", f[3]));
+                }
+                run.line(&format!("{label}{}:{idx}", domain.name()), f[2].to_owned(), f[3].to_owned());
             }
             Some("F") if f.len() >= 5 => {
                 let idx: usize = f[1].parse().unwrap_or(0);
